@@ -642,6 +642,19 @@ fn name_collision(root: &Relation) -> Option<String> {
     while let Some(r) = stack.pop() {
         if let Some(other) = seen.iter().find(|s| s.name() == r.name()) {
             if *other != r {
+                // the known finding is the truncation to four characters: the two nodes then differ in
+                // their full 64-bit hash. Two different nodes with EQUAL full hashes (fixed-key
+                // SipHash over the derived Hash of the whole node; chance 2^-64) mean the hash does
+                // not see the difference - another defect, reported under its own class
+                let full = |x: &Relation| {
+                    use std::hash::{Hash, Hasher};
+                    let mut h = std::collections::hash_map::DefaultHasher::new();
+                    x.hash(&mut h);
+                    h.finish()
+                };
+                if full(other) == full(r) {
+                    return Some(format!("!{}", r.name()));
+                }
                 return Some(r.name().to_string());
             }
             continue;
@@ -677,7 +690,11 @@ fn reparse_check(ctx: &Ctx, who: &str, qi: usize, r: &Relation, text: &str, c2: 
         probe(ctx, "content_name_collision_in_one_relation");
     }
     // class of every fixpoint failure of such a relation (known finding content_name_collision)
-    let fix_class = if collision.is_some() { "content_name_collision" } else { "unclassified" };
+    let fix_class = match &collision {
+        Some(n) if n.starts_with('!') => "content_hash_blind_to_a_difference",
+        Some(_) => "content_name_collision",
+        None => "unclassified",
+    };
     if !c2.ok {
         let class = if has_set_op(q) && c2.err.contains("Unknown table") { "set_operation_alias" } else { fix_class };
         report_fixpoint(who, 
